@@ -38,6 +38,7 @@ structure Sp where
   point : ℕ → Rat                         -- model interpolation points
   integ : ℕ → Option Rat                  -- BSplines.integrals (repaired)
   integOld : ℕ → Option Rat               -- BSplines.integrals of the unpatched code
+  hyp : Rat → Bool                        -- the point satisfies the hypothesis of interp_reproduces_1d(_cu)
 
 def getSpace (j : Json) : R Sp := do
   let kind ← fStr j "kind"
@@ -52,10 +53,11 @@ def getSpace (j : Json) : R Sp := do
              (fun span => rowOfLastWins per S.nbasis d span (basisFuns S.t d x span)),
            eval := fun c x => evalSpline1D S.t S.nk d c x false,
            point := greville ratFloor S,
-           integ := integralsGeneral S, integOld := integralsGeneralOld S }
+           integ := integralsGeneral S, integOld := integralsGeneralOld S,
+           hyp := fun x => (findSpan S.t S.nk d x).isSome }
   | "cu" =>
     let xmin ← fRat j "xmin"; let xmax ← fRat j "xmax"; let dx ← fRat j "dx"; let nc ← fNat j "ncells"
-    let nb := if per then nc else nc + 3
+    let nb := cuNb nc per
     let oldI : Option (ℕ → Rat) := cuIntegralsClampedOld xmin dx nc
     pure { cu := true, degree := 3, periodic := per, nb := nb, ncoeffs := nc + 3,
            row := fun x => some (cuCollocRow ratTrunc xmin dx nc nb per x),
@@ -66,7 +68,8 @@ def getSpace (j : Json) : R Sp := do
            point := cuPoints xmin xmax dx nc per,
            integ := cuIntegrals xmin dx nc per,
            integOld := if per then cuIntegrals xmin dx nc per
-                       else fun k => if k < nc + 3 then oldI.map (fun f => f k) else none }
+                       else fun k => if k < nc + 3 then oldI.map (fun f => f k) else none,
+           hyp := fun x => decide (0 ≤ ratTrunc ((x - xmin) / dx)) && decide (ratTrunc ((x - xmin) / dx) ≤ (nc : ℤ)) }
   | _ => throw s!"unknown space kind {kind}"
 
 /-- rows of the matrix at the given points as arrays (none if a span search fails) -/
@@ -99,7 +102,7 @@ def handle (j : Json) : R Json := do
         ("scale", jRats (idx.map (fun i => absRow M sp.nb (fn sol) i))),
         ("coeffs", jRats ((List.range sp.ncoeffs).map c)),
         ("values", jOptRats (xs.map (sp.eval c))),
-        ("l", jNat lu.1), ("u", jNat lu.2)]
+        ("l", jNat lu.1), ("u", jNat lu.2), ("hyp", Json.bool (xs.all sp.hyp))]
     | _, _ => pure <| obj [("matrix", Json.null)]
   | "banded" =>
     let m ← fList ratList j "matrix"; let u ← fNat j "u"; let l ← fNat j "l"
@@ -131,6 +134,11 @@ def handle (j : Json) : R Json := do
         ("res1", jMat (i2s.map (fun i2 => i1s.map (fun i1 =>
             matVec M1 s1.nb ((fn2 sol1) i2) i1 - sweep1Data (fn2 sol2) i2 i1)))),
         ("scale1", jMat (i2s.map (fun i2 => i1s.map (fun i1 => absRow M1 s1.nb ((fn2 sol1) i2) i1)))),
+        -- M₁ W M₂ᵀ - U (statement of interp_reproduces_2d) and its scale |M₁||W||M₂ᵀ|
+        ("resU", jMat (i1s.map (fun i1 => i2s.map (fun i2 =>
+            matVec M1 s1.nb (fun j1 => matVec M2 s2.nb (Wa j1) i2) i1 - (fn2 U) i1 i2)))),
+        ("scaleU", jMat (i1s.map (fun i1 => i2s.map (fun i2 =>
+            absRow M1 s1.nb (fun j1 => absRow M2 s2.nb (Wa j1) i2) i1)))),
         ("coeffs", jMat Wl),
         ("values", jList jOptRats vals)]
     | _, _ => pure <| obj [("coeffs", Json.null)]
